@@ -57,6 +57,10 @@ def place(vertices_resources, nets, machine, constraints,
                     "Chip requested by {} unavailable".format(machine))
             vertex = constraint.vertex
 
+            # A repeated constraint must not consume the resources twice
+            if placements.get(vertex) == location:
+                continue
+
             # Record the constrained vertex's location
             placements[vertex] = location
 
